@@ -335,10 +335,25 @@ def stream_B(tier, marker):
     for v in widths_values(fill, [k], [x], [d], 2, 2):
         if v[0] != "leaf":
             yield ("Bw", (("pos", v),))
-    if tier == "thorough":  # <= 3 entries per container
-        for v in widths_values([one], [k], [x], [d], 2, 3):
-            if v[0] != "leaf" and _max_width(v) == 3:
+    if tier == "thorough":  # 3 entries per container: (outer <= 2, inner <= 3) and (outer 3, inner <= 1)
+        seen = set()
+        inner3 = widths_values([one], [k], [x], [d], 1, 3)
+        inner1 = widths_values([one], [k], [x], [d], 1, 1)
+        for v in itertools.chain(_outer(inner3, k, x, d, (0, 1, 2)), _outer(inner1, k, x, d, (3,))):
+            if _max_width(v) == 3 and v not in seen:
+                seen.add(v)
                 yield ("Bw", (("pos", v),))
+
+
+def _outer(inner, k, x, d, widths):
+    """containers whose entries are drawn from `inner` (values of depth <= 1)"""
+    le = [("v", v) for v in inner] + [("sp", x)] + [("sp", v) for v in inner if v[0] == "list"]
+    de = [("kv", k, v) for v in inner] + [("sp", d)] + [("sp", v) for v in inner if v[0] == "dict"]
+    for n in widths:
+        for es in itertools.product(le, repeat=n):
+            yield ("list", es)
+        for es in itertools.product(de, repeat=n):
+            yield ("dict", es)
 
 
 def _max_width(v):
@@ -392,7 +407,8 @@ def stream_C(tier, marker):
         for b in items:
             yield ("C", (a, b))
     if tier == "thorough":
-        small = [it for it in items if _item_size(it) <= 1]
+        keep_vals = (g.leaf(g.I(1)), g.leaf(g.S("a b" + marker)), ("list", ()))
+        small = [it for it in items if _item_size(it) <= 1 and (it[0] != "kw" or it[2] in keep_vals[:2])]
         for a in small:
             for b in small:
                 for c in small:
